@@ -297,7 +297,7 @@ func iptr(v int) *int { return &v }
 // (ui.NotifySend: DISPLAY, `who`, `id -u`, `sudo -u <user> ... notify-send`), chosen by the batch number. The fake
 // commands live in the scratch directory and come first in PATH.
 func setupDesktop(ctx *Ctx) string {
-	variant := []string{"no-DISPLAY", "nobody-on-the-display", "user-on-the-display", "user-on-the-display-notify-send-fails", "who-fails", "who-prints-nothing"}[ctx.Batch%6]
+	variant := []string{"no-DISPLAY", "nobody-on-the-display", "user-on-the-display", "user-on-the-display-notify-send-fails", "who-fails", "who-prints-nothing", "DISPLAY-empty-who-prints-nothing"}[ctx.Batch%7]
 	bin := ctx.Path("fakebin")
 	_ = os.MkdirAll(bin, 0755)
 	script := func(name, body string) { _ = os.WriteFile(filepath.Join(bin, name), []byte("#!/bin/sh\n"+body+"\n"), 0755) }
@@ -319,6 +319,12 @@ func setupDesktop(ctx *Ctx) string {
 		script("who", "exit 1")
 	case "who-prints-nothing":
 		script("who", "true")
+	case "DISPLAY-empty-who-prints-nothing":
+		// DISPLAY exported but empty (`Environment=DISPLAY=` in a unit file), nobody logged in
+		script("who", "true")
+		_ = os.Setenv("DISPLAY", "")
+		_ = os.Setenv("PATH", bin+":"+os.Getenv("PATH"))
+		return variant
 	}
 	_ = os.Setenv("DISPLAY", ":0")
 	_ = os.Setenv("PATH", bin+":"+os.Getenv("PATH"))
